@@ -53,6 +53,13 @@ def templates(r):
                  'b.bare': "function fb(n):\n    k = 0\n    for e in arrayNew(1, 2, 3):\n        k = k + e * n\n    endfor\n    return k\nendfunction\nsystemLog('b')\n"}))
     out.append(('include', "i = 0\nwhile i < 3:\n    include 'tick.bare'\n    i = i + 1\nendwhile\nsystemLog('t=' + t)\n",
                 {'tick.bare': "t = if(t, t, 0) + 1\nsystemLog('tick')\nreturn\nsystemLog('never')\n"}))
+    # SEVERAL include lines in a row (the parser folds them into ONE include statement): the statements of every one of the files count
+    out.append(('include', "include 'one.bare'\ninclude 'two.bare'\ninclude 'three.bare'\nsystemLog('sum=' + (n1 + n2 + n3))\nsystemLog('end')\n",
+                {'one.bare': "n1 = 0\nwhile n1 < 3:\n    n1 = n1 + 1\nendwhile\nsystemLog('one')\n",
+                 'two.bare': "n2 = 5\nsystemLog('two')\nn2 = n2 + n1\n",
+                 'three.bare': "n3 = 1\nsystemLog('three')\n"}))
+    out.append(('include', "function body():\n    include 'one.bare'\n    include 'two.bare'\n    return 1\nendfunction\nbody()\nsystemLog('mid')\nbody()\nsystemLog('end')\n",
+                {'one.bare': "systemLog('one')\nk = 1\nk = k + 1\n", 'two.bare': "systemLog('two')\n"}))
     # closures across an include boundary (an include runs under a COPY of the options): a partial created inside the included file and
     # called by the includer, and the converse - the statements of the bound function count against the one budget either way
     fn3 = "function work(tag, n):\n    k = 0\n    while k < n:\n        systemLog(tag + k)\n        k = k + 1\n    endwhile\n    return k\nendfunction\n"
